@@ -219,6 +219,10 @@ func (fv *FuncVerifier) oblige(st *State, kind, text, goal string) {
 	if goal == "true" {
 		// trivially true: still count it (discharged by construction)
 	}
+	if sk := fv.contract.Flags["skip"]; sk != "" && strings.Contains(" "+strings.ReplaceAll(sk, ",", " ")+" ", " "+kind+" ") {
+		fv.note("obligations of kind '" + kind + "' are not claimed for " + fv.name + " (contract flag skip)")
+		return
+	}
 	if fv.recovers && (kind == "bounds" || kind == "nil" || kind == "div" || kind == "typeassert" || kind == "unreachable-panic") {
 		// panics inside a recover scope become the error result
 		fv.note("panics inside recover() scope become the error result")
